@@ -170,6 +170,26 @@ def run(ctx, rep):
                     verdict_scopes = 'reverse'
                 elif ms_[:2] == ['iter', s_['method']] and s_['method'] in ('find_map', 'find'):
                     verdict_scopes = 'forward'
+    if verdict_scopes is None:
+        # the scopes walked by one adaptor chain that keeps every hit and takes the last / the first of them:
+        # `self.symbols.iter().scan(..).filter_map(|scope| scope.iter().rposition(..)).last()` - outermost scope first, so the LAST
+        # hit is the innermost one (scan/map/enumerate/inspect keep the order)
+        for s_ in find_all(res['body'], lambda n: n.get('k') == 'mcall' and n['method'] in ('last', 'next', 'next_back')):
+            base_, ch_ = iter_chain(s_)
+            ms_ = [m for m, _ in ch_ if m not in ('scan', 'map', 'enumerate', 'inspect', 'zip')]
+            if 'symbols' not in render(base_) or 'self' not in render(base_) or 'flatten' in ms_ or 'filter_map' not in ms_:
+                continue
+            how = {('iter', 'filter_map', 'last'): 'reverse', ('iter', 'rev', 'filter_map', 'next'): 'reverse', ('iter', 'filter_map', 'next_back'): 'reverse',
+                   ('iter', 'filter_map', 'next'): 'forward', ('iter', 'rev', 'filter_map', 'last'): 'forward'}.get(tuple(ms_))
+            if how is None:
+                continue
+            verdict_scopes = how
+            inner = [a for m, a in ch_ if m == 'filter_map']
+            srch_ = find_all(inner[0][0], lambda n: n.get('k') == 'mcall' and n['method'] in ('position', 'rposition', 'find', 'rfind')) if inner and inner[0] else []
+            if len(srch_) == 1 and verdict_names is None:
+                ms2 = [m for m, _ in iter_chain(srch_[0])[1]]
+                verdict_names = {('iter', 'rposition'): 'latest-first', ('iter', 'position'): 'earliest-first', ('iter', 'rev', 'position'): 'latest-first(rev)',
+                                 ('iter', 'enumerate', 'rev', 'find'): 'latest-first'}.get(tuple(ms2))
     if verdict_scopes is None and verdict_names in (None,):
         # one chain over the names of all open scopes laid end to end (`symbols.iter().flatten()`): outer scopes first, a scope's
         # names in declaration order.  The LAST match is the innermost, latest declaration; the first match the outermost, oldest
